@@ -1,6 +1,6 @@
 (* C13: the statements about the faithful (iterative) interpreter model, assembled from
    InterpRefine.v (iterative = recursive) and InterpSound.v (recursive form sound). *)
-From Verif Require Import Exec Ser Ast Types TypeCheck ExecLemmas TheoremA InterpModel InterpRefine InterpSound InterpRefuted.
+From Verif Require Import Exec ExecTrace Ser Ast Types TypeCheck ExecLemmas TheoremA InterpModel InterpRefine InterpSound InterpRefuted.
 From Coq Require Import Lia.
 Local Open Scope N_scope.
 
@@ -31,6 +31,21 @@ Proof.
   intros [H1 [H2 [H3 H4]]] [Hk1 [Hk2 Hk3]] Hseq Hver m t items cs Ht Hb Hwf Hc Hsz H.
   rewrite interp_eq_rec in H.
   exact (interp_rec_sound e ke kp H1 H2 H3 H4 Hseq Hver Hk1 Hk2 Hk3 m t items cs Ht Hb Hwf Hc Hsz H).
+Qed.
+
+(* constraints_exact under the same side conditions: the instrumented execution of the encoded
+   script accepts and the checks of the executed path are exactly the reported constraints, in order *)
+Lemma interp_exact_sidecond (e : env) (ke : keyenv) (kp : bytes -> bool) :
+  num_facts -> keys_ok e ke kp ->
+  e_sequence e <> SEQ_FINAL -> 2 <= e_txversion e ->
+  forall (m : ms) (t : ty) (items : list bytes) (cs : list constr),
+    type_of m = ROk t -> c_base (t_corr t) = BB -> iwf e m -> icover m -> items_small items ->
+    interp e ke kp m (astack_of_items items) = IAccept cs ->
+    accepts_tr e (enc ke m) (rev items) = Some (map check_of cs).
+Proof.
+  intros [H1 [H2 [H3 H4]]] [Hk1 [Hk2 Hk3]] Hseq Hver m t items cs Ht Hb Hwf Hc Hsz H.
+  rewrite interp_eq_rec in H.
+  exact (interp_rec_exact e ke kp H1 H2 H3 H4 Hseq Hver Hk1 Hk2 Hk3 m t items cs Ht Hb Hwf Hc Hsz H).
 Qed.
 
 (* non-vacuity: the hypotheses about the environment are satisfiable together with an accepting run *)
